@@ -291,6 +291,86 @@ def run(chk):
     C03.run_through(chk, fx, fns, closure, prefix="C04")
     C03.run_inplace(chk, fx, fns, prefix="C04")
     C03.run_items(chk, fx, prefix="C04")
+    # ---- C04.wellorder: the well names a keyword receives come in the model's well order on every route
+    r_wo = chk.rule("C04.wellorder", "the list of wells a keyword handler receives is in well-definition order whatever it came from - the '?' of an ACTIONX (the matching wells, sorted by the step's WellMatcher), a well list, a pattern or a name: Schedule::wellNames(pattern, step, matching) returns only WellMatcher results; WellMatcher::wells returns a subsequence of the well order, a sorted list or at most one name; WellMatcher::sort delegates to NameOrder::sort, which orders by insertion index", floor=8)
+    wx = chk.facts(["opm/input/eclipse/Schedule/Schedule.cpp", "opm/input/eclipse/Schedule/Well/WellMatcher.cpp", "opm/input/eclipse/Schedule/Well/NameOrder.cpp"])
+
+    def leaves(e):
+        e = strip(e)
+        while e.get("k") in ("Ctor", "Temp", "Bind", "Cast") and len([c for c in (e.get("a") or e.get("c") or []) if c.get("k") != "DefArg"]) == 1 and (e.get("k") != "Ctor" or "vector" in (e.get("t") or "")) and strip([c for c in (e.get("a") or e.get("c")) if c.get("k") != "DefArg"][0]).get("k") in ("Cond", "MCall", "Call", "Ref", "Ctor", "Temp", "Bind", "Cast"):
+            e = strip([c for c in (e.get("a") or e.get("c")) if c.get("k") != "DefArg"][0])
+        if e.get("k") == "Cond":
+            return leaves(e["c"][1]) + leaves(e["c"][2])
+        return [e]
+
+    def returns(f):
+        return [n for n in walk(f["body"], skip_lambda=True) if n["k"] == "Return" and isinstance(n.get("e"), dict)]
+    wn = [f for f in wx.fn("Opm::Schedule::wellNames") if len(f["params"]) == 3 and "vector" in f["params"][2]["t"]]
+    if len(wn) != 1:
+        raise core.AnalysisBroken("Schedule::wellNames(pattern, step, matching_wells) not found")
+    wn = wn[0]
+    pat, stp, mat = [p_["n"] for p_ in wn["params"]]
+    wms = {v["n"] for n in walk(wn["body"]) if n["k"] == "Decl" for v in n["vars"] if isinstance(v.get("init"), dict) and show(strip(v["init"])) in ("this.wellMatcher(%s)" % stp,)}
+    for r_ in returns(wn):
+        for lf in leaves(r_["e"]):
+            t = show(lf)
+            ok = any(t in ("%s.sort(%s)" % (w, mat), "%s.wells(%s)" % (w, pat)) for w in wms)
+            chk.instance(r_wo, "wellNames:%s" % t[:40], sample=dict(function=wn["q"], returns=t))
+            if not ok:
+                chk.violation(r_wo, "wellNames:%s" % t[:40], "Schedule::wellNames(pattern, step, matching wells) returns `%s`: the names do not pass through the WellMatcher of the step (sort(%s) for '?', wells(%s) otherwise), so a keyword applied from an ACTIONX sees its wells in another order than the same keyword in the input" % (t, mat, pat), wn["file"], r_["l"])
+    qm = [n for n in walk(wn["body"]) if n["k"] == "Cond" and show(strip(n["c"][0])) in ('(%s == "?")' % pat,)]
+    chk.instance(r_wo, "wellNames:?", sample=dict(cond=[show(n["c"][0]) for n in qm]))
+    if len(qm) != 1 or not any(show(strip(qm[0]["c"][1])) == "%s.sort(%s)" % (w, mat) for w in wms):
+        chk.violation(r_wo, "wellNames:?", "Schedule::wellNames: the pattern '?' no longer selects the action's matching wells sorted into well order", wn["file"], wn["l"])
+    wl = [f for f in wx.fn("Opm::WellMatcher::wells") if len(f["params"]) == 1]
+    ws = wx.fn("Opm::WellMatcher::sort")
+    ns = wx.fn("Opm::NameOrder::sort")
+    if len(wl) != 1 or len(ws) != 1 or len(ns) != 1:
+        raise core.AnalysisBroken("WellMatcher::wells(pattern) / WellMatcher::sort / NameOrder::sort not found")
+    wl, ws, ns = wl[0], ws[0], ns[0]
+    for r_ in returns(wl):
+        for lf in leaves(r_["e"]):
+            t = show(lf)
+            kids = [c for c in (lf.get("a") or lf.get("c") or []) if isinstance(c, dict) and c.get("k") != "DefArg"]
+            ok = False
+            why = ""
+            if lf.get("k") in ("Ctor", "InitList", "Temp") and len(kids) <= 1 and not (kids and "vector" in (kids[0].get("t") or "")):
+                ok, why = True, "at most one name"
+            elif lf.get("k") == "MCall" and lf.get("m") == "sort" and show(strip(lf.get("obj"))) == "this":
+                ok, why = True, "sorted"
+            elif lf.get("k") == "Ref" and lf.get("d") == "Var":
+                nm = lf["n"]
+                fills = [n for n in walk(wl["body"], skip_lambda=True) if n["k"] in ("Call", "MCall") and any(x.get("k") == "Ref" and x.get("n") == nm for a_ in (n.get("a") or []) + ([n["obj"]] if isinstance(n.get("obj"), dict) else []) for x in walk(a_))]
+                writers = [n for n in fills if not (n["k"] == "MCall" and n.get("m") in ("reserve", "shrink_to_fit", "size", "empty"))]
+                ok = len(writers) >= 1 and all(n["k"] == "Call" and (n.get("fn") or "").endswith("copy_if") and show(n["a"][0]) == "this.m_well_order.begin()" and show(n["a"][1]) == "this.m_well_order.end()" for n in writers if not ((n.get("fn") or "").endswith("back_inserter")))
+                why = "copy_if over the well order"
+            chk.instance(r_wo, "wells:%s" % t[:40], sample=dict(function=wl["q"], returns=t, ordered_because=why))
+            if not ok:
+                chk.violation(r_wo, "wells:%s" % t[:40], "WellMatcher::wells(pattern) returns `%s`, which is neither sorted into well order (this->sort), nor filtered from the well order in place, nor a single name" % t, wl["file"], r_["l"])
+    ts = [show(lf) for r_ in returns(ws) for lf in leaves(r_["e"])]
+    cnd = [n for n in walk(ws["body"]) if n["k"] == "Cond"]
+    pw = ws["params"][0]["n"]
+    ok = len(cnd) == 1 and show(strip(cnd[0]["c"][0])) == "(this.m_well_order != nullptr)" and show(strip(cnd[0]["c"][1])) in ("this.m_well_order.sort(std::move(%s))" % pw, "this.m_well_order.sort(%s)" % pw)
+    chk.instance(r_wo, "WellMatcher::sort", sample=dict(returns=ts))
+    if not ok:
+        chk.violation(r_wo, "WellMatcher::sort", "WellMatcher::sort returns %s: with a well order present the names must be ordered by it (m_well_order->sort(wells))" % ts, ws["file"], ws["l"])
+    srt = [n for n in walk(ns["body"], skip_lambda=True) if n["k"] == "Call" and (n.get("fn") or "") in ("std::sort", "std::stable_sort")]
+    pn_ = ns["params"][0]["n"]
+    ok = False
+    cmp_txt = None
+    if len(srt) == 1 and show(srt[0]["a"][0]) == "%s.begin()" % pn_ and show(srt[0]["a"][1]) == "%s.end()" % pn_ and len(srt[0]["a"]) == 3:
+        lam = [x for x in walk(srt[0]["a"][2]) if x["k"] == "Lambda"]
+        if len(lam) == 1 and len(lam[0].get("params") or []) == 2:
+            a_, b_ = [p_["n"] for p_ in lam[0]["params"]]
+            rr = [n for n in walk(lam[0]["body"]) if n["k"] == "Return"]
+            cmp_txt = show(rr[0]["e"]) if len(rr) == 1 else None
+            ok = cmp_txt in ("(this.m_index_map.at(%s) < this.m_index_map.at(%s))" % (a_, b_), "(this.m_index_map.at(%s) > this.m_index_map.at(%s))" % (b_, a_))
+    rets = [show(r_["e"]) for r_ in returns(ns)]
+    ok = ok and rets == [pn_]
+    chk.instance(r_wo, "NameOrder::sort", sample=dict(comparator=cmp_txt, returns=rets))
+    if not ok:
+        chk.violation(r_wo, "NameOrder::sort", "NameOrder::sort: the names must be sorted by ascending insertion index (m_index_map.at(a) < m_index_map.at(b)) and returned; found comparator %s, returns %s" % (cmp_txt, rets), ns["file"], ns["l"])
+
     chk.assumptions += [
         "the C03 copy-on-write rules are evaluated on every library function (a superset of what applyAction reaches)",
         "documented mode-dependent keywords: WELPI, UDQ '?' substitution (tables in rules/C04.py)",
